@@ -8,7 +8,7 @@ from .. import sink
 RULE = ("operation sequences (add-item, flush, cancel with/without error, item.value(), batch.value(), batch.error(), state queries; <= 25 ops) on a harness "
         "BatchBase subclass with a generated flush behaviour (per-item: set value / set error / leave unset; then return, raise Exception or raise a "
         "BaseException; optionally create a new item of the same kind while flushing) and on the built-in DebugBatch, compared with a reference lifecycle model; "
-        "non-trivial = the batch finishes with >= 2 items and at least one operation follows; distinct = distinct case JSON")
+        "non-trivial = the batch finishes with >= 2 items and at least one operation follows; distinct = distinct case JSON Later batches of the same kind are created and finished while the finished batch keeps being checked.")
 ASSUMPTIONS = ["harness batch kinds follow the README's pattern (a 'current batch' per kind, switched in _try_switch_active_batch)"]
 
 
